@@ -283,6 +283,7 @@ _dispatch_workq_monitor_pools(void *context DISPATCH_UNUSED)
 			int32_t floor = mon->target_runnable - WORKQ_MAX_TRACKED_TIDS;
 			_dispatch_debug("workq: %s has no runnable workers; poking with floor %d",
 					dq->dq_label, floor);
+			DISPATCH_VERIF_PROBE(13);
 			_dispatch_root_queue_poke(dq, 1, floor);
 			global_runnable += 1; // account for poke in global estimate
 		} else if (mon->num_runnable < mon->target_runnable &&
